@@ -69,6 +69,51 @@ pub fn open_backend(base: Base, wrap: Wrap, path: &str) -> Result<Dyn, String> {
     })
 }
 
+/// how a backend is constructed: by its constructor, through `adapter::get_adapter(url)`, or alternating
+/// between the two on every (re)open (what one route wrote the other must read)
+#[derive(Clone, Copy, Debug, PartialEq)]
+pub enum Route {
+    Direct,
+    Url,
+    Alternate,
+}
+
+pub fn backend_url(base: Base, wrap: Wrap, path: &str) -> String {
+    let suffix = match wrap {
+        Wrap::Plain => "",
+        Wrap::Flate => "+flate",
+        Wrap::Brotli => "+brotli",
+    };
+    match base {
+        Base::Memory => format!("memory{}://", suffix),
+        Base::Dir => format!("file{}://{}", suffix, path),
+        Base::SqliteFile => format!("sqlite{}://{}", suffix, path),
+        Base::SqliteMem => format!("sqlite{}::memory:", suffix),
+    }
+}
+
+/// opens (or re-opens) a backend through the URL factory
+pub fn open_backend_url(base: Base, wrap: Wrap, path: &str) -> Result<Dyn, String> {
+    let url = backend_url(base, wrap, path);
+    let inner = call("get_adapter", move || melda::adapter::get_adapter(&url).map_err(|e| e.to_string()))
+        .map_err(|p| format!("panic:{}", p))
+        .and_then(|r| r)?;
+    Ok(Arc::new(RwLock::new(inner)))
+}
+
+fn open_routed(route: Route, nth_open: usize, base: Base, wrap: Wrap, path: &str) -> Result<Dyn, String> {
+    let url = match route {
+        Route::Direct => false,
+        Route::Url => true,
+        Route::Alternate => nth_open % 2 == 0,
+    };
+    if url {
+        open_backend_url(base, wrap, path)
+    } else {
+        open_backend(base, wrap, path)
+    }
+}
+
 fn persistent(b: Base) -> bool {
     matches!(b, Base::Dir | Base::SqliteFile)
 }
@@ -189,8 +234,13 @@ fn observe(ad: &Dyn, reference: &BTreeMap<String, Vec<u8>>, keys: &[&str]) -> Re
 
 /// runs a sequence of adapter operations on a fresh backend, comparing after every step
 fn run_seq(base: Base, wrap: Wrap, seq: &[AOp], keys: &[&str], vals: &[Vec<u8>]) -> Result<u64, Value> {
+    run_seq_routed(Route::Direct, base, wrap, seq, keys, vals)
+}
+
+fn run_seq_routed(route: Route, base: Base, wrap: Wrap, seq: &[AOp], keys: &[&str], vals: &[Vec<u8>]) -> Result<u64, Value> {
     let path = fresh_path();
-    let mut ad = open_backend(base, wrap, &path).map_err(|e| json!({"error": "backend cannot be created", "message": e}))?;
+    let mut opens = 0usize;
+    let mut ad = open_routed(route, opens, base, wrap, &path).map_err(|e| json!({"error": "backend cannot be created", "message": e}))?;
     let mut reference: BTreeMap<String, Vec<u8>> = BTreeMap::new();
     let mut n = observe(&ad, &reference, keys)?;
     for (i, op) in seq.iter().enumerate() {
@@ -203,7 +253,8 @@ fn run_seq(base: Base, wrap: Wrap, seq: &[AOp], keys: &[&str], vals: &[Vec<u8>])
             }
             AOp::Reopen => {
                 drop(ad);
-                ad = open_backend(base, wrap, &path).map_err(|e| json!({"error": "persistent backend cannot be reopened", "step": i, "message": e}))?;
+                opens += 1;
+                ad = open_routed(route, opens, base, wrap, &path).map_err(|e| json!({"error": "persistent backend cannot be reopened", "step": i, "message": e}))?;
             }
         }
         n += observe(&ad, &reference, keys).map_err(|mut d| {
@@ -232,11 +283,15 @@ fn adapter_bfs(rep: &mut Report, thorough: bool) {
     let mut backends = vec![];
     for b in [Base::Memory, Base::Dir, Base::SqliteFile, Base::SqliteMem] {
         for w in [Wrap::Plain, Wrap::Flate, Wrap::Brotli] {
-            backends.push((b, w));
+            backends.push((b, w, Route::Direct));
+            backends.push((b, w, Route::Url));
+            if persistent(b) {
+                backends.push((b, w, Route::Alternate));
+            }
         }
     }
     let mut per_backend = vec![];
-    for (b, w) in backends {
+    for (b, w, route) in backends {
         let mut alphabet: Vec<AOp> = vec![];
         for k in 0..keys.len() {
             for v in 0..vals.len() {
@@ -279,12 +334,12 @@ fn adapter_bfs(rep: &mut Report, thorough: bool) {
         }
         let checks = AtomicU64::new(0);
         let bad: Mutex<Vec<Value>> = Mutex::new(vec![]);
-        seqs.par_iter().for_each(|s| match run_seq(b, w, s, &keys, &vals) {
+        seqs.par_iter().for_each(|s| match run_seq_routed(route, b, w, s, &keys, &vals) {
             Ok(n) => {
                 checks.fetch_add(n, Ordering::Relaxed);
             }
             Err(mut d) => {
-                d["input"] = json!({"backend": format!("{:?}+{:?}", b, w), "operations": seq_text(s, &keys, &vals)});
+                d["input"] = json!({"backend": format!("{:?}+{:?}", b, w), "constructed": format!("{:?}", route), "url": backend_url(b, w, "<path>"), "operations": seq_text(s, &keys, &vals)});
                 let mut bd = bad.lock().unwrap();
                 if bd.len() < 50 {
                     bd.push(d);
@@ -296,7 +351,10 @@ fn adapter_bfs(rep: &mut Report, thorough: bool) {
         bd.sort_by_key(|d| d["input"]["operations"].as_array().map(|a| a.len()).unwrap_or(0));
         let mut sigs = BTreeSet::new();
         for d in &bd {
-            let sig = format!("C17:{:?}:{}", b, d["error"].as_str().unwrap_or("?"));
+            let sig = match route {
+                Route::Direct => format!("C17:{:?}:{}", b, d["error"].as_str().unwrap_or("?")),
+                _ => format!("C17:{:?}+{:?}:via-{:?}:{}", b, w, route, d["error"].as_str().unwrap_or("?")),
+            };
             if sigs.insert(sig.clone()) {
                 rep.violations.push(Violation { property: "C17".into(), signature: sig, scenario: "adapter-bfs".into(), history: vec![], detail: d.clone() });
             }
@@ -305,7 +363,7 @@ fn adapter_bfs(rep: &mut Report, thorough: bool) {
         rep.add_u64("states", seen.len() as u64);
         rep.add_u64("transitions", transitions);
         rep.add_u64("traces_validated_against_impl", seqs.len() as u64);
-        per_backend.push(json!({"backend": format!("{:?}+{:?}", b, w), "abstract_states": seen.len(), "transitions": transitions, "observations_compared": checks.load(Ordering::Relaxed), "failing_sequences": bd.len()}));
+        per_backend.push(json!({"backend": format!("{:?}+{:?}", b, w), "constructed": format!("{:?}", route), "abstract_states": seen.len(), "transitions": transitions, "observations_compared": checks.load(Ordering::Relaxed), "failing_sequences": bd.len()}));
     }
     rep.set("adapter_bfs", json!({"keys": keys, "value_lengths": vals.iter().map(|v| v.len()).collect::<Vec<_>>(), "depth": depth, "backends": per_backend}));
     rep.push_sample(json!({"adapter_sequence": ["write(1-aaaa.delta, 256 bytes)", "reopen", "write(1-aaaa.delta, 1 bytes)", "observe: whole reads, every slice, listings \"\"/.delta/.pack"]}));
@@ -370,14 +428,14 @@ fn replica_histories(rep: &mut Report, thorough: bool) {
         // baseline on the instrumented memory adapter of the harness
         let base_world = World::build(2, m.clone(), h);
         let baseline: Vec<Value> = (0..2).map(|r| base_world.view(r)).collect();
-        for (b, w) in &backends {
+        for (b, w, via_url) in backends.iter().flat_map(|(b, w)| [(b, w, false), (b, w, true)]) {
             runs += 1;
-            let r = run_history_on(*b, *w, &m, h);
+            let r = run_history_on(*b, *w, &m, h, via_url);
             match r {
                 Ok(views) => {
                     if views != baseline {
-                        rep.violations.push(Violation { property: "C17".into(), signature: format!("C17:{:?}:replica-history-differs", b), scenario: "replica-histories".into(), history: h.clone(),
-                            detail: json!({"input": {"backend": format!("{:?}+{:?}", b, w)}, "differs_r0": diff_keys(&views[0], &baseline[0]), "differs_r1": diff_keys(&views[1], &baseline[1]), "views": views, "baseline": baseline, "menu": {"docs": m.docs, "replicas": 2}}) });
+                        rep.violations.push(Violation { property: "C17".into(), signature: format!("C17:{:?}:replica-history-differs{}", b, if via_url { ":via-url" } else { "" }), scenario: "replica-histories".into(), history: h.clone(),
+                            detail: json!({"input": {"backend": format!("{:?}+{:?}", b, w), "via_url": via_url}, "differs_r0": diff_keys(&views[0], &baseline[0]), "differs_r1": diff_keys(&views[1], &baseline[1]), "views": views, "baseline": baseline, "menu": {"docs": m.docs, "replicas": 2}}) });
                     }
                 }
                 Err(e) => {
@@ -385,8 +443,8 @@ fn replica_histories(rep: &mut Report, thorough: bool) {
                     if non_persistent_reopen {
                         continue;
                     }
-                    rep.violations.push(Violation { property: "C17".into(), signature: format!("C17:{:?}:replica-history-failed", b), scenario: "replica-histories".into(), history: h.clone(),
-                        detail: json!({"input": {"backend": format!("{:?}+{:?}", b, w)}, "error": e, "menu": {"docs": m.docs, "replicas": 2}}) });
+                    rep.violations.push(Violation { property: "C17".into(), signature: format!("C17:{:?}:replica-history-failed{}", b, if via_url { ":via-url" } else { "" }), scenario: "replica-histories".into(), history: h.clone(),
+                        detail: json!({"input": {"backend": format!("{:?}+{:?}", b, w), "via_url": via_url}, "error": e, "menu": {"docs": m.docs, "replicas": 2}}) });
                 }
             }
         }
@@ -396,15 +454,22 @@ fn replica_histories(rep: &mut Report, thorough: bool) {
 }
 
 /// executes a history with replicas living on the given backend kind
-fn run_history_on(b: Base, w: Wrap, m: &Arc<Menu>, h: &[Op]) -> Result<Vec<Value>, String> {
+fn run_history_on(b: Base, w: Wrap, m: &Arc<Menu>, h: &[Op], via_url: bool) -> Result<Vec<Value>, String> {
     set_trace("C17 history");
     let paths: Vec<String> = (0..2).map(|_| fresh_path()).collect();
     let mut reps: Vec<Melda> = vec![];
     let mut heads: Vec<Vec<BTreeSet<String>>> = vec![vec![], vec![]];
     for p in &paths {
+        if via_url {
+            // the replica is created by Melda::new_from_url; a later reopen uses the constructors (and vice versa)
+            let url = backend_url(b, w, p);
+            reps.push(call("Melda::new_from_url", || Melda::new_from_url(&url)).map_err(|p| format!("panic:{}", p))?.map_err(|e| e.to_string())?);
+            continue;
+        }
         let ad = open_backend(b, w, p)?;
         reps.push(call("Melda::new", || Melda::new(ad)).map_err(|p| format!("panic:{}", p))?.map_err(|e| e.to_string())?);
     }
+    let mut reopens = 0usize;
     for op in h {
         let r = op.replica();
         let res: Result<Result<(), String>, String> = match op {
@@ -438,7 +503,8 @@ fn run_history_on(b: Base, w: Wrap, m: &Arc<Menu>, h: &[Op]) -> Result<Vec<Value
                 let placeholder = call("Melda::new", || Melda::new(crate::adapter::Store::new().adapter())).unwrap().unwrap();
                 let old = std::mem::replace(&mut reps[r], placeholder);
                 drop(old);
-                let ad = open_backend(b, w, &paths[r])?;
+                reopens += 1;
+                let ad = if via_url && reopens % 2 == 0 { open_backend_url(b, w, &paths[r])? } else { open_backend(b, w, &paths[r])? };
                 match call("Melda::new", || Melda::new(ad)) {
                     Ok(Ok(mm)) => {
                         reps[r] = mm;
@@ -479,7 +545,7 @@ pub fn run(thorough: bool) {
     let _ = std::fs::remove_dir_all(scratch());
     rep.set("distinct_nontrivial", rep.coverage.get("states").cloned().unwrap_or(json!(0)));
     rep.set("exhaustive", json!(true));
-    rep.set("rule", json!("engine A: breadth-first over sequences of write(key, value) and reopen (persistent backends) up to the stated depth, deduplicated on the abstract state (first value written per key, reopened-last flag), on EACH of memory, directory, SQLite file, SQLite in-memory x {plain, Deflate, Brotli}; after EVERY step the entire observable state is compared with a first-write-wins map: whole read of every key (and of a never-written key), EVERY non-empty in-range slice of values up to 16 bytes and a boundary set beyond, list for \"\", .delta, .pack as sorted multisets with the suffix removed. Then fixed replica histories (reopen, time travel, two-replica sync, resolution) are run over every backend and the views compared with the in-memory baseline."));
+    rep.set("rule", json!("engine A: breadth-first over sequences of write(key, value) and reopen (persistent backends) up to the stated depth, deduplicated on the abstract state (first value written per key, reopened-last flag), on EACH of memory, directory, SQLite file, SQLite in-memory x {plain, Deflate, Brotli} x construction route {constructor, adapter::get_adapter(url), alternating between the two on every reopen}; after EVERY step the entire observable state is compared with a first-write-wins map: whole read of every key (and of a never-written key), EVERY non-empty in-range slice of values up to 16 bytes and a boundary set beyond, list for \"\", .delta, .pack as sorted multisets with the suffix removed. Then fixed replica histories (reopen, time travel, two-replica sync, resolution) are run over every backend (replicas created by Melda::new on a constructed adapter and by Melda::new_from_url, reopened through the other route) and the views compared with the in-memory baseline."));
     rep.assume("keys are ASCII, at least 2 characters, and do not end in the wrappers' own suffixes (as every key Melda generates); ranged reads are non-empty and in range; the Solid backend (network) is excluded");
     rep.finish();
 }
